@@ -9,7 +9,8 @@ from genlib import *
 
 LEAN_MODULES = ["MpirProofs.Props.C01_mulmid"]
 THEOREMS = ["Mpir.MulMid.mulmid_basecase_spec", "Mpir.MulMid.mulmid_n_spec", "Mpir.MulMid.mulmid_spec", "Mpir.MulMid.tmSpec_ok",
-            "Mpir.MulMid.mp_pairs_spec", "Mpir.MulMid.mulmid_pairs_spec", "Mpir.MulMid.toom42_odd_fixup_partial"]
+            "Mpir.MulMid.mp_pairs_spec", "Mpir.MulMid.mulmid_pairs_spec", "Mpir.MulMid.toom42_odd_fixup_partial",
+            "Mpir.MulMid.toom42_mulmid_spec_partial"]
 PINS = [("mpn/generic/toom42_mulmid.c", None), ("gmp-impl.h", "SUBC_LIMB"), ("mpn/generic/add_err1_n.c", "mpn_add_err1_n"),
         ("mpn/generic/add_err2_n.c", "mpn_add_err2_n"), ("mpn/generic/sub_err2_n.c", "mpn_sub_err2_n"),
         ("mpn/generic/mulmid_basecase.c", "mpn_mulmid_basecase"), ("mpn/generic/mulmid_n.c", "mpn_mulmid_n"),
@@ -18,8 +19,8 @@ TRUSTED = ["hand-written limb-level models of mpn_mulmid_basecase / mpn_mulmid_n
            "library, all output limbs, on every check with MULMID_TOOM42_THRESHOLD of the tree)",
            "the linked mpn_mulmid_basecase is assembly; the generic C modelled here is its reference (differential tie: op mm_basecase here, k_mulmid_basecase in C14)"]
 ASSUMPTIONS = ["mpn_toom42_mulmid (toom42_mulmid.c) is modelled limb for limb (Mpir/Model/MulMidToom.lean, op mm_toom42, and it is the callee of the "
-               "driver's mulmid_n / mulmid), but only its odd row/diagonal step is proved (toom42_odd_fixup_partial); its even core (e0..e5 corrections, "
-               "neg, evaluation) is run only, so mulmid_n_spec / mulmid_spec keep the callee's specification as the hypothesis `TmSpec`",
+               "driver's mulmid_n / mulmid), its recursion, dispatch and odd row/diagonal are proved (toom42_odd_fixup_partial, toom42_mulmid_spec_partial); its even core (e0..e5 "
+               "corrections, neg, evaluation: hypothesis `EvenCore`) is run only, so mulmid_n_spec / mulmid_spec hold for the real callee modulo `EvenCore`",
                "mpn_mul_1 / mpn_addmul_1 / mpn_add_n / mpn_add_1 by the kernel models of Mpir/Model/Kernels.lean (theorems of C03/C01 leaves)",
                "documented size restriction `vn << GMP_NUMB_MAX` taken as bn <= 2^64"]
 RULE = ("mm_basecase: every (un, vn) with vn <= un <= 12 and around 2^k; mm_mulmid_n: n = 1..T+3 (T = MULMID_TOOM42_THRESHOLD) and 2T; mm_mulmid: the "
